@@ -204,6 +204,9 @@ func (e *Explorer) explore(prefix []int, spent int, k int) bool {
 		panic(fmt.Sprintf("REPLAY-DIVERGENCE: execution ended after %d points, prefix has %d", len(w.Points), len(prefix)))
 	}
 	e.check(w, spent)
+	if os.Getenv("VH_TRACE") != "" && len(prefix) == 0 {
+		fmt.Fprintf(os.Stderr, "TRACE %s outcome=%s\n%s\n", e.sc.ID, w.Outcome, strings.Join(traceStrings(w), "\n"))
+	}
 	// determinism sampling: replay every 64th execution once
 	e.replayN++
 	if e.replayN%64 == 0 {
